@@ -295,6 +295,28 @@ theorem pd_uu_terminal {Q : Matrix (Fin (ns + nc)) (Fin (ns + nc)) ℝ} (hQ : Is
     rw [dot_split, vR_mulVec, vL_app, vR_app]; simp
   rw [key]; exact hQ _ (app_zero_ne (ns := ns) hu)
 
+/-- quadratic form of `M` on `(0, u)` = quadratic form of its input block on `u` -/
+theorem qf_zero_app (M : Matrix (Fin (ns + nc)) (Fin (ns + nc)) ℝ) (u : Fin nc → ℝ) :
+    (app (0 : Fin ns → ℝ) u) ⬝ᵥ M *ᵥ (app 0 u) = u ⬝ᵥ bUU M *ᵥ u := by
+  rw [dot_split, vR_mulVec, vL_app, vR_app]; simp
+
+/-- **the exact guard of the code**: the stage cost matrix is symmetric, positive SEMI-definite, and its input
+block (`R_t`) is positive definite — what makes every `Quu` Cholesky-factorisable and the minimiser unique.
+(Weaker than `Q_t ≻ 0`: e.g. no state cost at all.) -/
+def CostOK (Q : Matrix (Fin (ns + nc)) (Fin (ns + nc)) ℝ) : Prop := IsSym Q ∧ IsPSD Q ∧ IsPD (bUU Q)
+
+theorem CostOK.of_pd {Q : Matrix (Fin (ns + nc)) (Fin (ns + nc)) ℝ} (hs : IsSym Q) (hp : IsPD Q) : CostOK Q :=
+  ⟨hs, hp.psd, pd_uu_terminal hp⟩
+
+/-- input block of (PSD with PD input block) + PSD pull-back is PD -/
+theorem pd_uu_of_costOK {Q : Matrix (Fin (ns + nc)) (Fin (ns + nc)) ℝ} (F : Matrix (Fin ns) (Fin (ns + nc)) ℝ)
+    {Vp : Matrix (Fin ns) (Fin ns) ℝ} (hQ : CostOK Q) (hV : IsPSD Vp) : IsPD (bUU (Q + Fᵀ * Vp * F)) := by
+  intro u hu
+  rw [← qf_zero_app, qf_aug, qf_zero_app]
+  have := hQ.2.2 u hu
+  have := hV (F *ᵥ app 0 u)
+  linarith
+
 end stage
 
 /-! ## Part 4 — the model's backward stage in Mathlib terms -/
@@ -375,7 +397,7 @@ theorem stage_v (t : Nat) (nxt : Option (Val ℝ ns)) :
 
 /-- everything the optimality induction needs to know about one backward iteration -/
 theorem stage_ok (hsol : SolverOK sol) (t : Nat) (nxt : Option (Val ℝ ns))
-    (hQs : IsSym (toM (P.Q t))) (hQp : IsPD (toM (P.Q t))) (hn : ValOK nxt) :
+    (hQ : CostOK (toM (P.Q t))) (hn : ValOK nxt) :
     let Qt := toM (stageQ S P dt xbar ubar t nxt).1
     let qt := toFn (stageQ S P dt xbar ubar t nxt).2
     let K := toM (stage sol S P dt xbar ubar t nxt).1.K
@@ -387,9 +409,9 @@ theorem stage_ok (hsol : SolverOK sol) (t : Nat) (nxt : Option (Val ℝ ns))
     ValOK (some (stage sol S P dt xbar ubar t nxt).2) := by
   intro Qt qt K k V v
   have hQt : Qt = toM (P.Q t) + (Fmat S dt xbar ubar t)ᵀ * Vp nxt * Fmat S dt xbar ubar t := stageQ_fst S P dt xbar ubar t nxt
-  have hsym : IsSym Qt := by rw [hQt]; exact sym_aug _ hQs hn.1
-  have hpsd : IsPSD Qt := by rw [hQt]; exact psd_aug _ hQp.psd hn.2
-  have hpd : IsPD (bUU Qt) := by rw [hQt]; exact pd_uu _ hQp hn.2
+  have hsym : IsSym Qt := by rw [hQt]; exact sym_aug _ hQ.1 hn.1
+  have hpsd : IsPSD Qt := by rw [hQt]; exact psd_aug _ hQ.2.1 hn.2
+  have hpd : IsPD (bUU Qt) := by rw [hQt]; exact pd_uu_of_costOK _ hQ hn.2
   have hsb := sym_blocks hsym
   have hc := hsol (blkUU (stageQ S P dt xbar ubar t nxt).1) (by rw [toM_blkUU]; exact hsb.2.2.2) (by rw [toM_blkUU]; exact hpd)
   have hM := hc.1 (blkUX (stageQ S P dt xbar ubar t nxt).1)
@@ -415,6 +437,54 @@ theorem stage_ok (hsol : SolverOK sol) (t : Nat) (nxt : Option (Val ℝ ns))
       rw [hV]; exact sym_value hsym K
     · show IsPSD V
       rw [hV]; exact psd_value hpsd K
+
+/-- what the solver is handed at one stage, and what comes back -/
+def GainOK (g : Gain ℝ ns nc) : Prop :=
+  IsSym (toM g.Quu) ∧ IsPD (toM g.Quu) ∧ toM g.Quu * toM g.K = - toM g.Qux ∧ toM g.Quu *ᵥ toFn g.k = - toFn g.qu
+
+/-- one backward iteration (ANY system): the matrix handed to `cholesky` is symmetric positive definite, the
+returned gains solve `Quu K = -Qux`, `Quu k = -qu`, and the new `V` is again symmetric PSD -/
+theorem stage_gain_ok (hsol : SolverOK sol) (t : Nat) (nxt : Option (Val ℝ ns))
+    (hQ : CostOK (toM (P.Q t))) (hn : ValOK nxt) :
+    GainOK (stage sol S P dt xbar ubar t nxt).1 ∧ ValOK (some (stage sol S P dt xbar ubar t nxt).2) := by
+  refine ⟨?_, (stage_ok sol S P dt xbar ubar hsol t nxt hQ hn).2.2⟩
+  have hQt : toM (stageQ S P dt xbar ubar t nxt).1 = toM (P.Q t) + (Fmat S dt xbar ubar t)ᵀ * Vp nxt * Fmat S dt xbar ubar t :=
+    stageQ_fst S P dt xbar ubar t nxt
+  have hsym : IsSym (toM (stageQ S P dt xbar ubar t nxt).1) := by rw [hQt]; exact sym_aug _ hQ.1 hn.1
+  have hpd : IsPD (bUU (toM (stageQ S P dt xbar ubar t nxt).1)) := by rw [hQt]; exact pd_uu_of_costOK _ hQ hn.2
+  have hsb := sym_blocks hsym
+  have e1 : toM (stage sol S P dt xbar ubar t nxt).1.Quu = bUU (toM (stageQ S P dt xbar ubar t nxt).1) := by simp [stage]
+  have e2 : toM (stage sol S P dt xbar ubar t nxt).1.Qux = bUX (toM (stageQ S P dt xbar ubar t nxt).1) := by simp [stage]
+  have e3 : toFn (stage sol S P dt xbar ubar t nxt).1.qu = vR (toFn (stageQ S P dt xbar ubar t nxt).2) := by simp [stage]
+  have hc := hsol (blkUU (stageQ S P dt xbar ubar t nxt).1) (by rw [toM_blkUU]; exact hsb.2.2.2) (by rw [toM_blkUU]; exact hpd)
+  have hM := hc.1 (blkUX (stageQ S P dt xbar ubar t nxt).1)
+  have hv := hc.2 (takeR (stageQ S P dt xbar ubar t nxt).2)
+  rw [toM_blkUU, toM_blkUX] at hM
+  rw [toM_blkUU, toFn_takeR] at hv
+  refine ⟨by rw [e1]; exact hsb.2.2.2, by rw [e1]; exact hpd, ?_, ?_⟩
+  · rw [e1, e2, stage_K, Matrix.mul_neg, hM]
+  · rw [e1, e3, stage_k, Matrix.mulVec_neg, hv]
+
+/-- the whole backward loop (ANY system, any nominal): every `Quu` is symmetric positive definite — `cholesky` is never
+called outside its domain — and every stored gain solves its stage system -/
+theorem bwFrom_gains_ok (hsol : SolverOK sol) (n : Nat) : ∀ t,
+    (∀ s, t ≤ s → s < t + n → CostOK (toM (P.Q s))) →
+    ValOK (bwFrom sol S P dt xbar ubar t n).1 ∧ ∀ g ∈ (bwFrom sol S P dt xbar ubar t n).2, GainOK g := by
+  induction n with
+  | zero => intro t _; exact ⟨ValOK_none, by intro g hg; simp [bwFrom] at hg⟩
+  | succ n ih =>
+    intro t hQ
+    obtain ⟨hv, hg⟩ := ih (t+1) (fun s a b => hQ s (by omega) (by omega))
+    have h := stage_gain_ok sol S P dt xbar ubar hsol t (bwFrom sol S P dt xbar ubar (t+1) n).1 (hQ t (le_refl _) (by omega)) hv
+    have e : bwFrom sol S P dt xbar ubar t (n+1)
+        = (some (stage sol S P dt xbar ubar t (bwFrom sol S P dt xbar ubar (t+1) n).1).2,
+           (stage sol S P dt xbar ubar t (bwFrom sol S P dt xbar ubar (t+1) n).1).1 :: (bwFrom sol S P dt xbar ubar (t+1) n).2) := rfl
+    rw [e]
+    refine ⟨h.2, ?_⟩
+    intro g hgm
+    rcases List.mem_cons.mp hgm with rfl | h2
+    · exact h.1
+    · exact hg g h2
 
 end model
 
@@ -489,7 +559,7 @@ nominal trajectory satisfies the dynamics, the cost of ANY input sequence from A
 of the LQR policy from `x` by exactly `λ_t(x)·(x'-x) + Σ ½ dτᵀ Q dτ`. -/
 theorem opt_identity (hsol : SolverOK sol) (A : Nat → Mat ℝ ns ns) (B : Nat → Mat ℝ ns nc) (c : Nat → Vec ℝ ns)
     (n : Nat) : ∀ (t : Nat),
-    (∀ s, t ≤ s → s < t + n → IsSym (toM (P.Q s)) ∧ IsPD (toM (P.Q s))) →
+    (∀ s, t ≤ s → s < t + n → CostOK (toM (P.Q s))) →
     (∀ s, t ≤ s → s < t + n → A (s * dt) = A s ∧ B (s * dt) = B s) →
     (∀ s, t ≤ s → s + 1 < t + n → xbar (s+1) = (Sys.linear A B c).f s (xbar s) (ubar s)) →
     ValOK (bwFrom sol (Sys.linear A B c) P dt xbar ubar t n).1 ∧
@@ -513,8 +583,9 @@ theorem opt_identity (hsol : SolverOK sol) (A : Nat → Mat ℝ ns ns) (B : Nat 
       (fun s h1 h2 => hnom s (by omega) (by omega))
     set S := Sys.linear A B c with hS
     set r := bwFrom sol S P dt xbar ubar (t+1) n with hr
-    obtain ⟨hQs, hQp⟩ := hQ t (le_refl _) (by omega)
-    obtain ⟨hR, hL, hvalw⟩ := stage_ok sol S P dt xbar ubar hsol t r.1 hQs hQp hval
+    have hQt0 := hQ t (le_refl _) (by omega)
+    have hQs := hQt0.1
+    obtain ⟨hR, hL, hvalw⟩ := stage_ok sol S P dt xbar ubar hsol t r.1 hQt0 hval
     rw [bwFrom_succ]
     refine ⟨hvalw, ?_⟩
     intro x x' us' hl
@@ -596,10 +667,11 @@ theorem gap_nonneg : ∀ (us us' : List (Vec ℝ nc)) (t : Nat) (x x' : Vec ℝ 
       have := h1 (app (toFn x' - toFn x) (toFn u' - toFn u))
       linarith
 
-/-- strict convexity: two input lists of the same length from the same start with zero gap are equal -/
+/-- strict convexity in the inputs: two input lists of the same length from the same start with zero gap are equal
+(needs only `Q_t ⪰ 0` with positive definite input block) -/
 theorem gap_eq_zero : ∀ (us us' : List (Vec ℝ nc)) (t : Nat) (x : Vec ℝ ns),
     us'.length = us.length →
-    (∀ s, t ≤ s → s < t + us.length → IsPD (toM (P.Q s))) → gap S P t x us x us' = 0 → us' = us := by
+    (∀ s, t ≤ s → s < t + us.length → CostOK (toM (P.Q s))) → gap S P t x us x us' = 0 → us' = us := by
   intro us
   induction us with
   | nil => intro us' t x hl _ _; exact List.eq_nil_of_length_eq_zero hl
@@ -609,23 +681,19 @@ theorem gap_eq_zero : ∀ (us us' : List (Vec ℝ nc)) (t : Nat) (x : Vec ℝ ns
     | nil => simp at hl
     | cons u' us' =>
       simp only [gap] at h0
-      have hpd := h t (le_refl _) (by simp)
+      have hc := h t (le_refl _) (by simp)
       have hps : ∀ s, t + 1 ≤ s → s < t + 1 + us.length → IsPSD (toM (P.Q s)) :=
-        fun s a b => (h s (by omega) (by simp only [List.length_cons]; omega)).psd
+        fun s a b => (h s (by omega) (by simp only [List.length_cons]; omega)).2.1
       have h2 := gap_nonneg S P us us' (t+1) (S.f t x u) (S.f t x u') hps
-      have h1 := hpd.psd (app (toFn x - toFn x) (toFn u' - toFn u))
+      have h1 := hc.2.1 (app (toFn x - toFn x) (toFn u' - toFn u))
       have hz : app (toFn x - toFn x) (toFn u' - toFn u) ⬝ᵥ toM (P.Q t) *ᵥ app (toFn x - toFn x) (toFn u' - toFn u) = 0 := by
         linarith
-      have hd : app (toFn x - toFn x) (toFn u' - toFn u) = 0 := by
+      have hd : toFn u' - toFn u = 0 := by
         by_contra hne
-        have := hpd _ hne
+        have := hc.2.2 _ hne
+        rw [sub_self, qf_zero_app] at hz
         linarith
-      have hu : u' = u := by
-        apply toFn_inj
-        have := congrArg (vR (m := ns) (n := nc)) hd
-        rw [vR_app] at this
-        have h3 : toFn u' - toFn u = 0 := by rw [this]; rfl
-        exact sub_eq_zero.mp h3
+      have hu : u' = u := toFn_inj (sub_eq_zero.mp hd)
       subst hu
       have hg : gap S P (t+1) (S.f t x u') us (S.f t x u') us' = 0 := by
         rw [hz] at h0; linarith
@@ -983,6 +1051,44 @@ theorem mpcLoop_fuel (fuel : Nat) : ∀ (k : Nat) (st : Stepper ℝ) (u : Option
       · omega
     · simp [hc]
 
+/-- the loop performs at most `max(max_steps, 1) - steps` further iterations -/
+theorem mpcLoop_count (fuel : Nat) : ∀ (st : Stepper ℝ) (u : Option (List (Vec ℝ nc))) (best : Best ℝ ns nc) (n : Nat),
+    (st.continual = true → (st.steps : Int) < max st.maxSteps 1) →
+    ((mpcLoop sol S P dt x0 fuel st u best n).2.2 : Int)
+      ≤ n + (if st.continual then max st.maxSteps 1 - st.steps else 0) := by
+  induction fuel with
+  | zero =>
+    intro st u best n h
+    simp only [mpcLoop]
+    split
+    · rename_i hc; have := h hc; omega
+    · omega
+  | succ fuel ih =>
+    intro st u best n h
+    rw [mpcLoop]
+    by_cases hc : st.continual = true
+    · simp only [hc, if_true]
+      have h0 := h hc
+      set st' := st.step (lqr sol S P dt x0 (nomOf u)).cost with hst'
+      have hinv : st'.continual = true → (st'.steps : Int) < max st'.maxSteps 1 := by
+        intro hc'
+        have := step_continual st _ hc'
+        rw [hst', step_maxSteps, step_steps]
+        have : st.maxSteps ≤ max st.maxSteps 1 := le_max_left _ _
+        push_cast at *
+        omega
+      refine le_trans (ih st' _ _ (n+1) hinv) ?_
+      by_cases hc' : st'.continual = true
+      · simp only [hc', if_true]
+        rw [hst', step_maxSteps, step_steps]
+        push_cast
+        omega
+      · simp only [hc']
+        push_cast
+        omega
+    · simp only [hc]
+      simp
+
 end mpcloop
 
 /-! ## Part 8 — re-using one MPC / stepper object: no state leaks from call to call -/
@@ -1053,6 +1159,126 @@ theorem bwFrom_dt (sol : Solver ℝ ns nc) (S : Sys ℝ ns nc) (P : Prob ℝ ns 
         | some w => simp only [stageQ]; rw [hA (t * dt) (t * dt'), hB (t * dt) (t * dt')]
       simp only [stage, hq]
     rw [hs]
+
+/-! ### glue of the constructors: tiled arguments, `c1 is None`, `MPC.__init__` -/
+
+theorem ofArgs_T (T : Nat) (Q : PerStep (Mat ℝ (ns + nc) (ns + nc))) (p : PerStep (Vec ℝ (ns + nc))) :
+    (Prob.ofArgs (ns := ns) (nc := nc) T Q p).T = T := rfl
+
+theorem linearOpt_some (A : Nat → Mat ℝ ns ns) (B : Nat → Mat ℝ ns nc) (c : Nat → Vec ℝ ns) :
+    Sys.linearOpt A B (some c) = Sys.linear A B c := rfl
+
+theorem vadd_vzero {n : Nat} (z : Vec ℝ n) : vadd z vzero = z := by
+  apply toFn_inj; simp
+
+theorem linearOpt_none (A : Nat → Mat ℝ ns ns) (B : Nat → Mat ℝ ns nc) :
+    Sys.linearOpt A B none = Sys.linear A B (fun _ => vzero) := by
+  unfold Sys.linearOpt Sys.linear
+  simp only [vadd_vzero]
+
+/-- every spelling of the system is a `Sys.linear` -/
+theorem linearOpt_eq (A : Nat → Mat ℝ ns ns) (B : Nat → Mat ℝ ns nc) (c1 : Option (Nat → Vec ℝ ns)) :
+    Sys.linearOpt A B c1 = Sys.linear A B (c1.getD fun _ => vzero) := by
+  cases c1 with
+  | none => exact linearOpt_none A B
+  | some c => rfl
+
+/-- "no state cost, unit input cost": `diag(0, …, 0, 1, …, 1)` — inside `CostOK`, not positive definite -/
+def rMat (ns nc : Nat) : Mat ℝ (ns + nc) (ns + nc) := mat fun i j => if i = j ∧ ns ≤ i.val then 1 else 0
+
+theorem rMat_blocks (ns nc : Nat) :
+    bXX (toM (rMat ns nc)) = 0 ∧ bXU (toM (rMat ns nc)) = 0 ∧ bUX (toM (rMat ns nc)) = 0 ∧ bUU (toM (rMat ns nc)) = 1 := by
+  unfold rMat
+  rw [toM_mat]
+  refine ⟨?_, ?_, ?_, ?_⟩
+  · ext i j
+    simp [bXX]
+  · ext i j
+    simp [bXU]
+  · ext i j
+    have : Fin.natAdd ns i ≠ Fin.castAdd nc j := by
+      intro h; have := congrArg Fin.val h; simp at this; omega
+    simp [bUX, this]
+  · ext i j
+    simp only [bUU, Matrix.of_apply, Matrix.one_apply]
+    by_cases h : i = j
+    · subst h; simp
+    · have : Fin.natAdd ns i ≠ Fin.natAdd ns j := by
+        intro h2; apply h; have := congrArg Fin.val h2; simp at this; exact Fin.ext this
+      simp [h, this]
+
+theorem rMat_qf (ns nc : Nat) (x : Fin (ns + nc) → ℝ) : x ⬝ᵥ toM (rMat ns nc) *ᵥ x = vR x ⬝ᵥ vR x := by
+  obtain ⟨h1, h2, h3, h4⟩ := rMat_blocks ns nc
+  rw [dot_split, vL_mulVec, vR_mulVec, h1, h2, h3, h4]
+  simp
+
+theorem rMat_costOK (ns nc : Nat) : CostOK (toM (rMat ns nc)) := by
+  refine ⟨?_, ?_, ?_⟩
+  · unfold IsSym rMat
+    rw [toM_mat]
+    ext i j
+    simp only [Matrix.transpose_apply, Matrix.of_apply]
+    by_cases h : i = j
+    · subst h; rfl
+    · have h' : ¬ j = i := fun e => h e.symm
+      simp [h, h']
+  · intro x
+    rw [rMat_qf]
+    simp only [dotProduct]
+    exact Finset.sum_nonneg fun i _ => mul_self_nonneg _
+  · rw [(rMat_blocks ns nc).2.2.2]
+    intro u hu
+    rw [Matrix.one_mulVec]
+    have h0 : 0 ≤ u ⬝ᵥ u := by
+      simp only [dotProduct]; exact Finset.sum_nonneg fun i _ => mul_self_nonneg (u i)
+    have h1 : u ⬝ᵥ u ≠ 0 := fun h => hu (dotProduct_self_eq_zero.mp h)
+    exact lt_of_le_of_ne h0 (Ne.symm h1)
+
+theorem rMat_not_pd (ns nc : Nat) (h : 0 < ns) : ¬ IsPD (toM (rMat ns nc)) := by
+  intro hpd
+  have hne : app (fun _ : Fin ns => (1:ℝ)) (0 : Fin nc → ℝ) ≠ 0 := by
+    intro e
+    have := congrFun (congrArg (vL (m := ns) (n := nc)) e) ⟨0, h⟩
+    rw [vL_app] at this
+    simp [vL] at this
+  have := hpd _ hne
+  rw [rMat_qf, vR_app] at this
+  simp at this
+
+/-! ### tails of the backward / forward pass (principle of optimality) -/
+
+theorem bwFrom_drop (sol : Solver ℝ ns nc) (S : Sys ℝ ns nc) (P : Prob ℝ ns nc) (dt : Nat)
+    (xbar : Nat → Vec ℝ ns) (ubar : Nat → Vec ℝ nc) (j : Nat) : ∀ (s n : Nat), j ≤ n →
+    (bwFrom sol S P dt xbar ubar s n).2.drop j = (bwFrom sol S P dt xbar ubar (s + j) (n - j)).2 := by
+  induction j with
+  | zero => intro s n _; simp
+  | succ j ih =>
+    intro s n h
+    obtain ⟨m, rfl⟩ : ∃ m, n = m + 1 := ⟨n - 1, by omega⟩
+    rw [bwFrom_succ]
+    simp only [List.drop_succ_cons]
+    rw [ih (s+1) m (by omega)]
+    have e1 : s + 1 + j = s + (j + 1) := by omega
+    have e2 : m + 1 - (j + 1) = m - j := by omega
+    rw [e1, e2]
+
+/-- the forward loop restarted at step `j` from the state it reached there produces the remaining inputs -/
+theorem fwFrom_drop (S : Sys ℝ ns nc) (P : Prob ℝ ns nc) (xbar : Nat → Vec ℝ ns) (ubar : Nat → Vec ℝ nc) (j : Nat) :
+    ∀ (t : Nat) (x : Vec ℝ ns) (gs : List (Gain ℝ ns nc)), j ≤ gs.length →
+    (fwFrom S P xbar ubar t t x gs).2.1.drop j
+      = (fwFrom S P xbar ubar (t + j) (t + j) (nth (x :: (fwFrom S P xbar ubar t t x gs).1) j) (gs.drop j)).2.1 := by
+  induction j with
+  | zero => intro t x gs _; simp [nth]
+  | succ j ih =>
+    intro t x gs h
+    cases gs with
+    | nil => simp at h
+    | cons g gs =>
+      rw [fwFrom_cons]
+      simp only [List.drop_succ_cons, nth_cons_succ]
+      rw [ih (t+1) _ gs (by simpa using h)]
+      have e : t + 1 + j = t + (j + 1) := by omega
+      rw [e]
 
 end reuse
 
